@@ -229,7 +229,7 @@ fn part() -> HistPart<Mon, impl Fn(&Setup) -> Mon + Sync> {
     sp.codecs = vec![CodecKind::Fix, CodecKind::Var, CodecKind::Postcard];
     sp.packet = vec![(18, 40), (40, 90), (90, 200), (1400, 1401)];
     sp.max_tx = (1, 12);
-    HistPart { name: "histories", sp, p, cases_quick: 30_000, cases_thorough: 2_000_000, mk: |s: &Setup| Mon::new(s) }
+    HistPart { name: "histories", sp, p, cases_quick: 120_000, cases_thorough: 2_000_000, mk: |s: &Setup| Mon::new(s) }
 }
 
 fn part_long_tx() -> HistPart<Mon, impl Fn(&Setup) -> Mon + Sync> {
@@ -243,7 +243,7 @@ fn part_long_tx() -> HistPart<Mon, impl Fn(&Setup) -> Mon + Sync> {
     sp.packet = vec![(20, 60), (1400, 1401)];
     sp.max_tx = (200, 255);
     sp.handler = false;
-    HistPart { name: "histories-max-transmissions-200-254", sp, p, cases_quick: 1_500, cases_thorough: 60_000, mk: |s: &Setup| Mon::new(s) }
+    HistPart { name: "histories-max-transmissions-200-254", sp, p, cases_quick: 4_500, cases_thorough: 60_000, mk: |s: &Setup| Mon::new(s) }
 }
 
 pub fn run(ctx: &Ctx, report: &mut Report) -> EvidenceMeta {
